@@ -200,9 +200,11 @@ def run(item, ctx, tier, seed):
                     "easy": [ep, en],
                 }
                 ctx.state()
+                # (score_class / equal_class as literal, run-time built and NumPy strings, rotating over the states)
+                kind_i = (fi + ep + 2 * en) % 3
                 ok, s = guarded(
                     ctx, "construct", case, Scores, fp, fn,
-                    nb_easy_pos=ep, nb_easy_neg=en, score_class=sc, equal_class=ec, **kw
+                    nb_easy_pos=ep, nb_easy_neg=en, score_class=ot.string_kinds(sc)[kind_i][1], equal_class=ot.string_kinds(ec)[(kind_i + 1) % 3][1], **kw
                 )
                 if not ok:
                     continue
